@@ -17,7 +17,7 @@ pub fn def02() -> PropDef {
     PropDef {
         info: PropInfo {
             id: "C02",
-            rule: "layouts: packet of 0-64 bytes and metadata buffer absent or 8-64 bytes, each placed start- or end-against a PROT_NONE page; 0-3 registered ranges of 1-32 bytes inside a canary-filled arena, some separated by holes of only 1-7 bytes. probes: one access instruction {ldx, st, stx, xadd, ldabs, ldind} x width {1,2,4,8} whose effective address is a region boundary (start or end of packet / metadata / each range / the stack) plus a delta in [-9,+9], or 0, 1, u64::MAX-k, a base+offset sum that wraps past 2^64, or a far address; base value and displacement are split randomly between register and 16-bit offset (imm+src for ldind). Oracle (computed from the real addresses inside the child): allowed <=> all bytes inside exactly one region (and naturally aligned for xadd); allowed => Ok with the exact loaded value / exactly the stored bytes changed; refused => Err (never a panic or signal) and no byte of packet, metadata, arena or canaries changed. The thorough tier additionally enumerates every (region boundary, delta, kind, width) combination for fixed layouts. Non-trivial = effective address within 9 bytes of a region boundary, or wrapped; distinct by hash of layout+probe.",
+            rule: "layouts: packet of 0-64 bytes and metadata buffer absent or 8-64 bytes, each placed start- or end-against a PROT_NONE page; 0-3 registered ranges of 1-32 bytes inside a canary-filled arena, some separated by holes of only 1-7 bytes. probes: one access instruction {ldx, st, stx, xadd, ldabs, ldind} x width {1,2,4,8} whose effective address is a region boundary (start or end of packet / metadata / each range / the stack) plus a delta in [-9,+9], or 0, 1, u64::MAX-k, a base+offset sum that wraps past 2^64, or a far address; base value and displacement are split randomly between register and 16-bit offset (imm+src for ldind); a quarter of the probes first perform a narrower access through the same register and offset; in a quarter of the layouts the metadata buffer starts 1-7 bytes after the end of the packet. Oracle (computed from the real addresses inside the child): allowed <=> all bytes inside exactly one region (and naturally aligned for xadd); allowed => Ok with the exact loaded value / exactly the stored bytes changed; refused => Err (never a panic or signal) and no byte of packet, metadata, arena or canaries changed. The thorough tier additionally enumerates every (region boundary, delta, kind, width) combination for fixed layouts. Non-trivial = effective address within 9 bytes of a region boundary, or wrapped; distinct by hash of layout+probe.",
             assumptions: &["the interpreter's stack is reached through r10-relative probes (its absolute address is unknown); loads from it only have to succeed", "registered ranges never touch or overlap each other or the other regions (holes of 1-7 bytes between two ranges are generated on purpose)"],
         },
         run: run02,
@@ -30,7 +30,7 @@ pub fn def11() -> PropDef {
     PropDef {
         info: PropInfo {
             id: "C11",
-            rule: "the C02 probe generator restricted to the regions Cranelift knows {packet, metadata buffer, 512-byte stack} on the metadata VM (metadata buffer present or empty, packet empty or not), same boundary windows, null, top-of-address-space and wrap-around addresses. Each probe is compiled with Cranelift and executed in its own forked child. Oracle: in bounds => the child returns the exact loaded value / the stored bytes are exactly the expected ones; out of bounds => the child is terminated by SIGILL (the trap) and no byte of packet, metadata or the surrounding canary bytes changed; a normal return, SIGSEGV/SIGBUS, or a changed byte is a violation. Non-trivial = effective address within 9 bytes of a region boundary, or wrapped; distinct by hash of layout+probe.",
+            rule: "the C02 probe generator restricted to the regions Cranelift knows {packet, metadata buffer, 512-byte stack} on the metadata VM (metadata buffer present or empty, packet empty or not), same boundary windows (incl. packet and metadata buffer only 1-7 bytes apart, and a narrower priming access through the same register and offset in the same basic block), null, top-of-address-space and wrap-around addresses. Each probe is compiled with Cranelift and executed in its own forked child. Oracle: in bounds => the child returns the exact loaded value / the stored bytes are exactly the expected ones; out of bounds => the child is terminated by SIGILL (the trap) and no byte of packet, metadata or the surrounding canary bytes changed; a normal return, SIGSEGV/SIGBUS, or a changed byte is a violation. Non-trivial = effective address within 9 bytes of a region boundary, or wrapped; distinct by hash of layout+probe.",
             assumptions: &["a Cranelift trap surfaces as SIGILL (ud2) in the child", "guard pages make an out-of-region read fault; a returned value proves that a read was performed"],
         },
         run: run11,
@@ -50,6 +50,9 @@ pub struct Layout {
     /// between two registered ranges), gap == 0 gives it a slot of its own
     ranges: Vec<(u8, u8, u8)>,
     fill: u8,
+    /// 0 = packet and metadata buffer live in separate arenas; 1-7 = the metadata buffer starts
+    /// this many bytes after the end of the packet (two regions with a small hole in between)
+    mbuff_gap: u8,
 }
 
 #[derive(Clone, Copy, Debug, PartialEq, Eq)]
@@ -80,12 +83,15 @@ pub struct Probe {
     target: Target,
     split: i16,
     val: u64,
+    /// 0 = none; otherwise a narrower access through the same register and offset is executed
+    /// first (bit 0: store instead of load; bits 1-2: its width 1/2/4)
+    prime: u8,
 }
 
 fn layout(with_ranges: bool) -> impl Strategy<Value = Layout> {
     let ranges = if with_ranges { prop::collection::vec((any::<u8>(), 1u8..33, prop_oneof![2 => Just(0u8), 1 => 1u8..8]), 0..4).boxed() } else { Just(vec![]).boxed() };
-    (prop_oneof![1 => Just(0u8), 5 => 1u8..65], any::<bool>(), prop_oneof![1 => Just(0u8), 3 => 8u8..65], any::<bool>(), ranges, any::<u8>())
-        .prop_map(|(pkt_len, pkt_at_end, mbuff_len, mbuff_at_end, ranges, fill)| Layout { pkt_len, pkt_at_end, mbuff_len, mbuff_at_end, ranges, fill })
+    (prop_oneof![1 => Just(0u8), 5 => 1u8..65], any::<bool>(), prop_oneof![1 => Just(0u8), 3 => 8u8..65], any::<bool>(), ranges, any::<u8>(), prop_oneof![3 => Just(0u8), 1 => 1u8..8])
+        .prop_map(|(pkt_len, pkt_at_end, mbuff_len, mbuff_at_end, ranges, fill, mbuff_gap)| Layout { pkt_len, pkt_at_end, mbuff_len, mbuff_at_end, ranges, fill, mbuff_gap })
 }
 
 fn probe(nregions: u8, cranelift: bool) -> impl Strategy<Value = Probe> {
@@ -100,8 +106,8 @@ fn probe(nregions: u8, cranelift: bool) -> impl Strategy<Value = Probe> {
         1 => prop_oneof![Just(0u64), Just(1u64), (0u64..16).prop_map(|k| u64::MAX - k), any::<u64>().prop_map(|x| x | (1 << 62)), Just(4096u64), Just(8u64)].prop_map(Target::Abs),
         1 => (0u8..16, 0u8..32).prop_map(|(back, off)| Target::Wrap { back, off }),
     ];
-    (prop::sample::select(kinds), prop::sample::select(vec![1u8, 2, 4, 8]), target, prop_oneof![1 => Just(0i16), 2 => any::<i16>(), 1 => -64i16..64], crate::gen::interesting_u64())
-        .prop_map(|(kind, width, target, split, val)| Probe { kind, width, target, split, val })
+    (prop::sample::select(kinds), prop::sample::select(vec![1u8, 2, 4, 8]), target, prop_oneof![1 => Just(0i16), 2 => any::<i16>(), 1 => -64i16..64], crate::gen::interesting_u64(), prop_oneof![3 => Just(0u8), 1 => 1u8..8])
+        .prop_map(|(kind, width, target, split, val, prime)| Probe { kind, width, target, split, val, prime })
 }
 
 pub fn case_strategy(with_ranges: bool, cranelift: bool) -> impl Strategy<Value = (Layout, Probe)> {
@@ -151,9 +157,17 @@ impl Mem {
     }
 
     fn regions(&self, l: &Layout) -> Regions {
-        let mut regs = vec![(self.pkt.place(l.pkt_len as usize, l.pkt_at_end) as u64, l.pkt_len as u64)];
+        let adjacent = l.mbuff_gap > 0 && l.pkt_len > 0 && l.mbuff_len > 0;
+        let pkt_start = if adjacent { self.pkt.data_start() as u64 + 128 } else { self.pkt.place(l.pkt_len as usize, l.pkt_at_end) as u64 };
+        let mut regs = vec![(pkt_start, l.pkt_len as u64)];
         // an absent metadata buffer is the empty slice (dangling pointer, length 0)
-        let m = if l.mbuff_len == 0 { (1u64, 0u64) } else { (self.mbuff.place(l.mbuff_len as usize, l.mbuff_at_end) as u64, l.mbuff_len as u64) };
+        let m = if l.mbuff_len == 0 {
+            (1u64, 0u64)
+        } else if adjacent {
+            (pkt_start + l.pkt_len as u64 + l.mbuff_gap as u64, l.mbuff_len as u64)
+        } else {
+            (self.mbuff.place(l.mbuff_len as usize, l.mbuff_at_end) as u64, l.mbuff_len as u64)
+        };
         regs.push(m);
         // ranges: non-touching slots of 96 bytes inside the arena page, away from its edges
         let mut prev_end: Option<u64> = None;
@@ -205,6 +219,8 @@ struct Built {
     ea: Option<u64>,
     stack_delta: Option<i64>,
     near: bool,
+    /// (is store, width) of the priming access actually emitted
+    prime: Option<(bool, usize)>,
 }
 
 fn build(p: &Probe, r: &Regions, ld_base: u64) -> Option<Built> {
@@ -240,6 +256,7 @@ fn build(p: &Probe, r: &Regions, ld_base: u64) -> Option<Built> {
     if xadd && w < 4 {
         return None;
     }
+    let mut prime: Option<(bool, usize)> = None;
     match p.kind {
         Kind2::LdAbs | Kind2::LdInd => {
             // packet-relative addressing: ea = packet + zx(imm) (+ src)
@@ -268,7 +285,7 @@ fn build(p: &Probe, r: &Regions, ld_base: u64) -> Option<Built> {
                         let off = *o as i16;
                         emit_access(&mut out, p, w, off);
                         out.push(Insn::new(EXIT, 0, 0, 0, 0));
-                        return Some(Built { prog: encode_prog(&out), ea: Some(ea), stack_delta: None, near });
+                        return Some(Built { prog: encode_prog(&out), ea: Some(ea), stack_delta: None, near, prime: None });
                     }
                     _ => lddw(&mut out, 1, ea.wrapping_sub(off as i64 as u64)),
                 },
@@ -278,12 +295,27 @@ fn build(p: &Probe, r: &Regions, ld_base: u64) -> Option<Built> {
                 }
                 _ => return None,
             }
+            // optional narrower access through the same register and offset first
+            if p.prime != 0 {
+                let pw = [1usize, 2, 4, 1][(p.prime as usize >> 1) & 3];
+                if pw < w {
+                    let is_store = p.prime & 1 != 0;
+                    if is_store {
+                        out.push(Insn::new(st_opc(pw), 1, 0, off, PRIME_IMM));
+                    } else {
+                        out.push(Insn::new(ldx_opc(pw), 3, 1, off, 0));
+                    }
+                    prime = Some((is_store, pw));
+                }
+            }
             emit_access(&mut out, p, w, off);
         }
     }
     out.push(Insn::new(EXIT, 0, 0, 0, 0));
-    Some(Built { prog: encode_prog(&out), ea, stack_delta, near })
+    Some(Built { prog: encode_prog(&out), ea, stack_delta, near, prime })
 }
+
+const PRIME_IMM: i32 = 0x5a6b7c;
 
 fn emit_access(out: &mut Vec<Insn>, p: &Probe, w: usize, off: i16) {
     match p.kind {
@@ -324,11 +356,19 @@ unsafe fn child_probe(mem: &Mem, l: &Layout, p: &Probe, eng: Eng) {
     let before = mem.snapshot();
     let w = p.width as u64;
     // oracle
-    let in_region = |ea: u64| -> bool { regs.regs.iter().any(|(s, len)| ea >= *s && ea.checked_add(w).map(|e| e <= s + len).unwrap_or(false)) };
+    let in_region_w = |ea: u64, w: u64| -> bool { regs.regs.iter().any(|(s, len)| ea >= *s && ea.checked_add(w).map(|e| e <= s + len).unwrap_or(false)) };
+    let in_region = |ea: u64| -> bool { in_region_w(ea, w) };
     let (mut allowed, is_stack) = match (b.ea, b.stack_delta) {
         (Some(ea), _) => (in_region(ea), false),
         (None, Some(d)) => (d >= -512 && d + w as i64 <= 0, true),
         _ => unreachable!(),
+    };
+    // the priming access (same address, narrower) comes first: if it is refused, so is the program
+    let prime_allowed = match (b.prime, b.ea, b.stack_delta) {
+        (None, _, _) => true,
+        (Some((_, pw)), Some(ea), _) => in_region_w(ea, pw as u64),
+        (Some((_, pw)), None, Some(d)) => d >= -512 && d + pw as i64 <= 0,
+        _ => true,
     };
     let aligned = match (b.ea, b.stack_delta) {
         (Some(ea), _) => ea % w == 0,
@@ -339,6 +379,7 @@ unsafe fn child_probe(mem: &Mem, l: &Layout, p: &Probe, eng: Eng) {
     if p.kind == Kind2::Xadd && !aligned && eng == Eng::Interp {
         allowed = false; // a misaligned atomic add is an interpreter error (C18)
     }
+    allowed = allowed && prime_allowed;
     sh.allowed = allowed as u32;
     sh.near = b.near as u32;
     let prog: &'static [u8] = std::mem::transmute::<&[u8], &'static [u8]>(&b.prog[..]);
@@ -357,6 +398,18 @@ unsafe fn child_probe(mem: &Mem, l: &Layout, p: &Probe, eng: Eng) {
     // expected memory image
     let mut expect = before.clone();
     let mut expect_val: Option<u64> = None;
+    if prime_allowed && !is_stack {
+        if let (Some((true, pw)), Some(ea)) = (b.prime, b.ea) {
+            // a priming store is carried out even if the main access is refused afterwards
+            let idx = mem.snap_index(ea).expect("allowed address is inside an arena");
+            expect[idx..idx + pw].copy_from_slice(&(PRIME_IMM as i64 as u64).to_le_bytes()[..pw]);
+        }
+    }
+    let before = expect.clone();
+    if !TRAP.is_null() {
+        // what memory must look like if the main access traps
+        (*TRAP).before = before.clone();
+    }
     if allowed && !is_stack {
         let ea = b.ea.unwrap();
         let idx = mem.snap_index(ea).expect("allowed address is inside an arena");
@@ -559,9 +612,9 @@ extern "C" fn on_trap(_sig: i32, _info: *mut libc::siginfo_t, _ctx: *mut libc::c
 
 fn case_json(l: &Layout, p: &Probe) -> Value {
     json!({
-        "layout": {"pkt_len": l.pkt_len, "pkt_at_end": l.pkt_at_end, "mbuff_len": l.mbuff_len, "mbuff_at_end": l.mbuff_at_end, "ranges": l.ranges, "fill": l.fill},
+        "layout": {"pkt_len": l.pkt_len, "pkt_at_end": l.pkt_at_end, "mbuff_len": l.mbuff_len, "mbuff_at_end": l.mbuff_at_end, "ranges": l.ranges, "fill": l.fill, "mbuff_gap": l.mbuff_gap},
         "probe": {
-            "kind": format!("{:?}", p.kind), "width": p.width, "split": p.split, "val": p.val.to_string(),
+            "kind": format!("{:?}", p.kind), "width": p.width, "split": p.split, "val": p.val.to_string(), "prime": p.prime,
             "target": match &p.target {
                 Target::Edge { region, end, delta } => json!({"edge": [region, end, delta]}),
                 Target::Stack { delta } => json!({"stack": delta}),
@@ -581,6 +634,7 @@ fn case_from_json(v: &Value) -> Option<(Layout, Probe)> {
         mbuff_at_end: lj["mbuff_at_end"].as_bool()?,
         ranges: lj["ranges"].as_array()?.iter().map(|r| (r[0].as_u64().unwrap_or(0) as u8, r[1].as_u64().unwrap_or(1) as u8, r[2].as_u64().unwrap_or(0) as u8)).collect(),
         fill: lj["fill"].as_u64()? as u8,
+        mbuff_gap: lj["mbuff_gap"].as_u64().unwrap_or(0) as u8,
     };
     let pj = &v["probe"];
     let kind = match pj["kind"].as_str()? {
@@ -602,7 +656,7 @@ fn case_from_json(v: &Value) -> Option<(Layout, Probe)> {
         let w = t["wrap"].as_array()?;
         Target::Wrap { back: w[0].as_u64()? as u8, off: w[1].as_u64()? as u8 }
     };
-    Some((l, Probe { kind, width: pj["width"].as_u64()? as u8, target, split: pj["split"].as_i64()? as i16, val: pj["val"].as_str()?.parse().ok()? }))
+    Some((l, Probe { kind, width: pj["width"].as_u64()? as u8, target, split: pj["split"].as_i64()? as i16, val: pj["val"].as_str()?.parse().ok()?, prime: pj["prime"].as_u64().unwrap_or(0) as u8 }))
 }
 
 fn account(st: &mut Stats, l: &Layout, p: &Probe, allowed: bool, near: bool, v: &Verdict) {
@@ -657,10 +711,10 @@ fn drive(ctx: &Ctx, eng: Eng, quick: u64, thorough: u64) {
     if ctx.tier == Tier::Thorough {
         // exhaustive window: every (region boundary, delta, kind, width) for fixed layouts
         let layouts = [
-            Layout { pkt_len: 17, pkt_at_end: true, mbuff_len: 24, mbuff_at_end: false, ranges: vec![(3, 5, 0), (200, 32, 3)], fill: 7 },
-            Layout { pkt_len: 0, pkt_at_end: true, mbuff_len: 0, mbuff_at_end: false, ranges: vec![(9, 1, 0)], fill: 9 },
-            Layout { pkt_len: 64, pkt_at_end: false, mbuff_len: 8, mbuff_at_end: true, ranges: vec![], fill: 1 },
-            Layout { pkt_len: 1, pkt_at_end: true, mbuff_len: 64, mbuff_at_end: true, ranges: vec![(77, 8, 0), (1, 9, 1), (130, 16, 7)], fill: 3 },
+            Layout { pkt_len: 17, pkt_at_end: true, mbuff_len: 24, mbuff_at_end: false, ranges: vec![(3, 5, 0), (200, 32, 3)], fill: 7, mbuff_gap: 0 },
+            Layout { pkt_len: 0, pkt_at_end: true, mbuff_len: 0, mbuff_at_end: false, ranges: vec![(9, 1, 0)], fill: 9, mbuff_gap: 0 },
+            Layout { pkt_len: 64, pkt_at_end: false, mbuff_len: 8, mbuff_at_end: true, ranges: vec![], fill: 1, mbuff_gap: 3 },
+            Layout { pkt_len: 1, pkt_at_end: true, mbuff_len: 64, mbuff_at_end: true, ranges: vec![(77, 8, 0), (1, 9, 1), (130, 16, 7)], fill: 3, mbuff_gap: 1 },
         ];
         let kinds = [Kind2::Ldx, Kind2::St, Kind2::Stx, Kind2::Xadd, Kind2::LdAbs, Kind2::LdInd];
         let mut n = 0u64;
@@ -677,7 +731,7 @@ fn drive(ctx: &Ctx, eng: Eng, quick: u64, thorough: u64) {
                                 if n % ctx.nworkers as u64 != ctx.worker as u64 {
                                     continue;
                                 }
-                                let p = Probe { kind, width, target: Target::Edge { region, end, delta }, split: (n % 7) as i16 * 3 - 9, val: 0x0102_0304_0506_0708u64.wrapping_mul(n | 1) };
+                                let p = Probe { kind, width, target: Target::Edge { region, end, delta }, split: (n % 7) as i16 * 3 - 9, val: 0x0102_0304_0506_0708u64.wrapping_mul(n | 1), prime: if n % 3 == 0 { (n % 8) as u8 } else { 0 } };
                                 let (v, allowed, near) = run_probe(&mem.borrow(), &l, &p, eng);
                                 count += 1;
                                 let fail = v.is_fail();
@@ -702,7 +756,7 @@ fn drive(ctx: &Ctx, eng: Eng, quick: u64, thorough: u64) {
                         if n % ctx.nworkers as u64 != ctx.worker as u64 || (delta > -500 && delta < -12 && n % 8 != 0) {
                             continue;
                         }
-                        let p = Probe { kind, width, target: Target::Stack { delta }, split: (n % 5) as i16 * 4 - 8, val: n };
+                        let p = Probe { kind, width, target: Target::Stack { delta }, split: (n % 5) as i16 * 4 - 8, val: n, prime: 0 };
                         let (v, allowed, near) = run_probe(&mem.borrow(), &l, &p, eng);
                         count += 1;
                         let fail = v.is_fail();
